@@ -176,6 +176,7 @@ type Rec struct {
 	Nonce   int64
 	SHash   string
 	GFee    int64 // defg: head fee override (0 = keep)
+	Fwd     bool  // para-chain node and not this para chain's executor: types.IsForward2MainChainTx (harness knowledge)
 	Rate    int64 // defg: fee rate handed to CreateTxGroup
 }
 
@@ -189,6 +190,7 @@ type Reg struct {
 	Snds    []string
 	NextID  int
 	Black   map[string]bool // blacklisted addresses (harness knowledge)
+	Para    bool            // the current env is a para-chain node
 }
 
 // NewReg makes an empty registry.
@@ -290,6 +292,7 @@ func (r *Reg) finish(rec *Rec) {
 	rec.EthSort = rec.EthSig && h.P.Exec != "para"
 	rec.Nonce = rec.Tx.Nonce
 	rec.SHash = types.CalcTxShortHash(rec.Hash)
+	rec.Fwd = r.Para && h.P.Exec != "para"
 	r.ByID[rec.ID] = rec
 	for _, m := range rec.Members {
 		r.MemByID[m.ID] = m
@@ -308,15 +311,15 @@ func b01(b bool) string {
 }
 
 // Derived renders the abstract attributes of rec for the model (the part of a def line after ';').
-// m=<id>:<snd>:<size>:<fee>:<exp>:<sigok>:<took>:<bl>:<signed> per member.
+// m=<id>:<snd>:<size>:<fee>:<exp>:<sigok>:<took>:<bl>:<signed>:<eth>:<nonce> per member.
 func (rec *Rec) Derived() string {
 	var ms []string
 	for _, m := range rec.Members {
-		ms = append(ms, fmt.Sprintf("%d:%d:%d:%d:%d:%s:%s:%s:%s", m.ID, m.Snd, m.Size, m.Tx.Fee, m.Tx.Expire,
-			b01(m.SigOK), b01(m.ToOK), b01(m.Bl), b01(m.Tx.Signature != nil)))
+		ms = append(ms, fmt.Sprintf("%d:%d:%d:%d:%d:%s:%s:%s:%s:%s:%d", m.ID, m.Snd, m.Size, m.Tx.Fee, m.Tx.Expire,
+			b01(m.SigOK), b01(m.ToOK), b01(m.Bl), b01(m.Tx.Signature != nil), b01(m.P.isEthSig()), m.Tx.Nonce))
 	}
-	return fmt.Sprintf("id=%d snd=%d size=%d fee=%d exp=%d eth=%s es=%s nonce=%d sh=%s m=%s", rec.ID, rec.Snd, rec.Size, rec.Fee,
-		rec.Exp, b01(rec.EthSig), b01(rec.EthSort), rec.Nonce, rec.SHash, strings.Join(ms, ","))
+	return fmt.Sprintf("id=%d snd=%d size=%d fee=%d exp=%d eth=%s es=%s nonce=%d sh=%s fwd=%s m=%s", rec.ID, rec.Snd, rec.Size, rec.Fee,
+		rec.Exp, b01(rec.EthSig), b01(rec.EthSort), rec.Nonce, rec.SHash, b01(rec.Fwd), strings.Join(ms, ","))
 }
 
 // DefLine renders the full def/defg op line.
